@@ -12,7 +12,7 @@ func main() {
 		os.Exit(2)
 	}
 	repo, out := os.Args[1], os.Args[2]
-	for _, f := range []func(string, string) error{genLayouts, genPanicSites, genSyncSkeleton} {
+	for _, f := range []func(string, string) error{genLayouts, genPanicSites, genSyncSkeleton, genSharedState} {
 		if err := f(repo, out); err != nil {
 			fmt.Fprintln(os.Stderr, err)
 			os.Exit(1)
